@@ -66,6 +66,30 @@ class Executor:
 
     def _build(self, item):
         kind = item["kind"]
+        if kind == "process" and item.get("seq_types"):
+            import numpy
+            import pandas
+            base = dict(item)
+            kinds = base.pop("seq_types")
+            pm = self._build(base)
+            times = [float(t) for t in pm.time]
+            for fld in sorted(kinds):
+                vals = list(getattr(pm, fld))
+                how = kinds[fld]
+                if any(v is None for v in vals):
+                    how = "tuple"                      # None entries stay None only in plain sequences
+                if how == "tuple":
+                    new = tuple(vals)
+                elif how == "array":
+                    new = numpy.array(vals, dtype=float)
+                elif how == "series":
+                    new = pandas.Series(vals, dtype=float)
+                elif how == "series_time":
+                    new = pandas.Series(vals, index=times, dtype=float)
+                else:
+                    new = pandas.Series(vals, index=range(3, 3 + len(vals)), dtype=float)
+                setattr(pm, fld, new)
+            return pm
         if kind == "process" and item.get("comments") is not None:
             base = dict(item)
             text = base.pop("comments")
